@@ -201,7 +201,7 @@ def finding_matches(f, prop, c):
         return False
     if 'op' in f and c['opname'] not in f['op']:
         return False
-    if 'stream' in f and c.get('stream') != f['stream']:
+    if 'stream' in f and not fnmatch.fnmatch(c.get('stream') or '', f['stream']):
         return False
     if 'pred' in f:
         return findings_pred.PRED[f['pred']](c)
